@@ -32,8 +32,17 @@ def drop_comp(m, i):
     return m
 
 
+def _fix_reg(m):
+    if m.get("reg_order"):
+        nt, nw = len(m.get("teams", [])), len(m.get("wps", []))
+        m["reg_order"] = None
+        m.pop("reg_order")
+    return m
+
+
 def drop_wp(m, i):
     m = copy.deepcopy(m)
+    _fix_reg(m)
     del m["wps"][i]
     for wp in m["wps"]:
         wp["inputs"] = [x - (x > i) for x in wp.get("inputs", []) if x != i]
@@ -59,6 +68,7 @@ def model_candidates(m):
     for ti in reversed(range(len(m.get("teams", [])))):
         if len(m["teams"]) > 1:
             c = copy.deepcopy(m)
+            _fix_reg(c)
             del c["teams"][ti]
             yield c
         for wi in reversed(range(len(m["teams"][ti]["workers"]))):
@@ -79,10 +89,16 @@ def model_candidates(m):
         c = copy.deepcopy(m)
         c.pop("order")
         yield c
-    if m.get("assign_list"):
-        c = copy.deepcopy(m)
-        c.pop("assign_list")
-        yield c
+    for fld in ("assign_list", "reg_order", "assign_style"):
+        if m.get(fld):
+            c = copy.deepcopy(m)
+            c.pop(fld)
+            yield c
+    for ti, tm in enumerate(m.get("teams", [])):
+        if tm.get("ctor_targets"):
+            c = copy.deepcopy(m)
+            c["teams"][ti].pop("ctor_targets")
+            yield c
     for i, t in enumerate(m["tasks"]):
         if t.get("name") is not None:
             c = copy.deepcopy(m)
